@@ -433,3 +433,58 @@ func RaceReports(globPrefix string) []string {
 	}
 	return out
 }
+
+// Races reads the race-detector reports written below $VERIF_BIN/race.* by this process and its
+// children. attribute returns a fingerprint for reports that concern the state the property names
+// ("" = not this property's business). Attributed reports become violations; the others are
+// counted and the heads of the first few are kept in the evidence so that they can be looked at.
+func (r *Run) Races(attribute func(report string) string) {
+	reps := RaceReports(filepath.Join(os.Getenv("VERIF_BIN"), "race"))
+	var samples []string
+	for _, rep := range reps {
+		if fp := attribute(rep); fp != "" {
+			r.Violation(fp, "data race reported by the race detector", rep)
+			continue
+		}
+		r.Count("unattributed_race_reports", 1)
+		if len(samples) < 3 {
+			lines := splitLines(rep)
+			if len(lines) > 40 {
+				lines = lines[:40]
+			}
+			head := ""
+			for _, l := range lines {
+				head += l + "\n"
+			}
+			samples = append(samples, head)
+		}
+	}
+	if len(samples) > 0 {
+		r.Put("unattributed_race_samples", samples)
+	}
+	r.Count("race_reports_total", len(reps))
+}
+
+// RaceFrame returns the first frame of a report that lies in the given source path fragment.
+func RaceFrame(report, fragment string) string {
+	prev := ""
+	for _, l := range splitLines(report) {
+		t := l
+		for len(t) > 0 && (t[0] == ' ' || t[0] == '\t') {
+			t = t[1:]
+		}
+		if contains(t, fragment) && len(t) > 0 && t[0] == '/' {
+			// prev holds the function line
+			fn := prev
+			if i := lastIndex(fn, '('); i > 0 {
+				fn = fn[:i]
+			}
+			if i := lastIndex(fn, '/'); i >= 0 {
+				fn = fn[i+1:]
+			}
+			return fn
+		}
+		prev = t
+	}
+	return ""
+}
